@@ -15,6 +15,8 @@ NOTES = ['every (N, r) with 1 <= r <= N <= 8 (thorough: <= 12), every T in 1..4,
          '`timesteps` is enumerated (history length and dtype random there); history length and dtype are crossed completely for N <= 3 (thorough: N <= 12, and N <= 6 for callable timesteps)',
          'the (n, c, t) argument log is compared in full for every case with N <= 12 and for Script rules at every size',
          'stream floatrule: the rule returns value/4.0 into an int automaton; model store = truncation toward zero',
+         'stream bigint: int64 / uint64 automata with states and rule results above 2**53 (exact in Z on the model side)',
+         'the dtype name of the result and (scribble stream) the caller array after the call are compared inside Coq too',
          'stream scribble: the rule overwrites its neighbourhood argument in place after computing its value '
          '(twins.Scribble); the model passes values, so the model-side rule is the underlying one']
 ASSUMPTIONS = ['rule results are representable in the automaton dtype (out-of-range results are outside the property)',
@@ -172,6 +174,52 @@ def generate(rng, tier):
         dyn = (k // len(FAMS)) % 2 == 1
         yield _case(rng, 'scribble/%s/%s' % (fam, 'callable' if dyn else 'fixed'), N, r, rng.randint(2, 4),
                     rng.randint(1, 2), rng.choice(DTYPES), fam, dyn, scribble=True)
+    # (6) int64 / uint64 automata whose states and rule results exceed 2**53: the stored values are exact
+    #     (no detour through float64 anywhere between the rule's return value and the array)
+    n_big = 120 if tier == 'quick' else 1200
+    for k in range(n_big):
+        fam = FAMS[k % len(FAMS)]
+        dyn = (k // len(FAMS)) % 2 == 1
+        dtype = 'uint64' if (k // (2 * len(FAMS))) % 2 else 'int64'
+        N = rng.randint(1, 8)
+        r = rng.randint(1, N)
+        T = rng.randint(2, 4)
+        H = rng.randint(1, 2)
+        yield {'kind': 'bigint/%s/%s/%s' % (dtype, fam, 'callable' if dyn else 'fixed'), 'dyn': dyn, 'scale': 1,
+               'dtype': dtype, 'hist': [[_bigcell(rng, dtype) for _ in range(N)] for _ in range(H)], 'T': T, 'r': r,
+               'rule': _bigrule(rng, fam, N, r, T, dtype), 'log': True}
+
+
+def _bigcell(rng, dtype):
+    if dtype == 'uint64':
+        return rng.choice([2 ** 53 + 1, 2 ** 63 + 5, 2 ** 64 - 1, 2 ** 62 + 3, rng.randrange(2 ** 53, 2 ** 64), rng.randint(0, 9)])
+    return rng.choice([2 ** 53 + 1, -(2 ** 53) - 1, 2 ** 62 + 3, 2 ** 63 - 1, -(2 ** 63), rng.randrange(-2 ** 63, 2 ** 63),
+                       rng.randint(-9, 9)])
+
+
+def _bigrule(rng, fam, N, r, T, dtype):
+    if fam == 'script':
+        # a whole row of results must be of one kind for np.array([...]) to stay integral:
+        # uint64 rows are all >= 0; int64 rows stay within the int64 range
+        vs = [_bigcell(rng, dtype) for _ in range(N * (T - 1))]
+        if dtype == 'uint64' and N >= 2 and rng.random() < 0.5:
+            # rows whose Python-int results straddle 2**63 (np.array([2**63 + 5, 3]) without a dtype is float64:
+            # the defect repaired by /repo commit c474f58); exact values are required
+            for row in range(T - 1):
+                pair = rng.choice([[2 ** 63 + 5, 3], [2 ** 64 - 1, 0], [0, 2 ** 64 - 1], [2 ** 63, 2 ** 63 - 1]])
+                at = rng.randrange(N - 1)
+                vs[row * N + at: row * N + at + 2] = pair
+        return {'fam': 'script', 'vs': vs}
+    ws = [rng.choice([1, -1, 3, 2 ** 40 + 1, -(2 ** 33) - 7, rng.randint(-5, 5)]) for _ in range(2 * r + 1)]
+    if all(w == 0 for w in ws):
+        ws[0] = 1
+    if dtype == 'uint64':
+        m = rng.choice([2 ** 64, 2 ** 64 - 59, 2 ** 63 + 29, 2 ** 63])     # results in [0, m), on both sides of 2**63
+    else:
+        m = rng.choice([2 ** 63, 2 ** 63 - 25, -(2 ** 63), -(2 ** 62) - 1])   # results in [0, m) or (m, 0]
+    if fam == 'aff':
+        return {'fam': 'aff', 'ws': ws, 'b': rng.choice([2 ** 53 + 1, -(2 ** 60) - 1, 7]), 'm': m}
+    return {'fam': fam, 'ws': ws, 'm': m}
 
 
 # ---------------------------------------------------------------- implementation
@@ -196,23 +244,41 @@ def run_impl(c):
     if arr is not None and integral:
         arr = [[int(x) for x in row] for row in arr]
     return ['ok', {'array': arr, 'integral': integral, 'shape': [int(s) for s in out.shape], 'dtype': str(out.dtype),
-                   'log': [[n, cc, tt] for (n, cc, tt) in rule.log]}]
+                   'log': [[n, cc, tt] for (n, cc, tt) in rule.log],
+                   # the caller's array after the call (compared for the rules that write into their argument)
+                   'after': _exact_rows(ca) if c.get('scribble') else None}]
+
+
+def _exact_rows(a):
+    rows = a.tolist()
+    if all(float(x) == int(x) for row in rows for x in row):
+        return [[int(x) for x in row] for row in rows]
+    return rows
 
 
 def _ccall(e):
     return '(%s, %s, %s)' % (czlist(e[0]), cnat(e[1]), cnat(e[2]))
 
 
+_CDTYPE = {'int32': 'DInt32', 'int64': 'DInt64', 'uint8': 'DUInt8', 'uint64': 'DUInt64', 'float64': 'DFloat64'}
+
+
+def _integral_rows(rows):
+    return all(isinstance(x, int) or (isinstance(x, float) and x.is_integer()) for row in rows for x in row)
+
+
 def to_coq(c, obs):
-    if obs[0] == 'ok' and (obs[1]['array'] is None or not obs[1]['integral']):
+    if obs[0] == 'ok' and (obs[1]['array'] is None or not obs[1]['integral']
+                           or (obs[1].get('after') is not None and not _integral_rows(obs[1]['after']))):
         o = '(Raise OtherError)'       # not a 2-D integer-valued array: cannot agree with the model
     elif obs[0] == 'ok':
         lg = '(Some %s)' % clist(obs[1]['log'], _ccall) if c.get('log', True) else 'None'
-        o = '(Ok (%s, %s))' % (cgrid(obs[1]['array']), lg)
+        after = 'None' if obs[1].get('after') is None else '(Some %s)' % cgrid(obs[1]['after'])
+        o = '(Ok (MkObs %s %s %s %s))' % (cgrid(obs[1]['array']), lg, _CDTYPE.get(obs[1]['dtype'], 'DOther'), after)
     else:
         o = cres(obs, str)
-    return '(CEvolve %s %s %s %s %s %s %s)' % (cbool(c['dyn']), cz(c['scale']), cgrid(c['hist']), cnat(c['T']),
-                                             cnat(c['r']), coq_rule_spec(c['rule']), o)
+    return '(CEvolve %s %s %s %s %s %s %s %s)' % (cbool(c['dyn']), cz(c['scale']), _CDTYPE[c['dtype']], cgrid(c['hist']),
+                                                cnat(c['T']), cnat(c['r']), coq_rule_spec(c['rule']), o)
 
 
 def nontrivial(c, obs):
@@ -255,6 +321,8 @@ def oracle(c, obs):
     arr, log = o['array'], o['log']
     if arr[:H] != hist:
         return 'the result does not start with the given history'
+    if o.get('after') is not None and o['after'] != hist:
+        return "the caller's array was modified by the call"
     if len(log) != N * (T - 1):
         return 'the rule was consulted %d times, expected N*(T-1) = %d' % (len(log), N * (T - 1))
     for t in range(1, T):
@@ -297,7 +365,7 @@ def shrink(c):
         yield rebuild([row[:max(N // 2, 1)] for row in hist], T, min(r, max(N // 2, 1)))
     if r > 1:
         yield rebuild(hist, T, r - 1)
-    if c['dtype'] != 'int64' and c['dtype'] != 'uint8':
+    if c['dtype'] not in ('int64', 'uint8', 'uint64'):
         yield dict(c, dtype='int64')
     if c['rule']['fam'] != 'script' and c['scale'] == 1:
         yield rebuild(hist, T, r, {'fam': 'script', 'vs': list(range(1, N * (T - 1) + 1))})
